@@ -51,6 +51,31 @@ def run(res, tier, seed):
             Tt.tag = "/tri/cfg=" + v["name"]
             tri = [nm for nm in ("trsm_upper_right", "trsm_lower_right", "trsm_upper_left", "trsm_lower_left") if nm in ops.CATALOG]
             Tt.run(tri, seed + 7, 3 if tier == "quick" else 20, 260, tri_big=(bs + 1, bs + 300, 1.0))
+            # triangular inversion recurses for n*n >= 2*L3 (its split point is computed in words and differs between
+            # the SSE2 and the scalar build)
+            n0 = int((2 * int(v["l3"])) ** 0.5) + 1
+            if n0 <= 800 and "trtri_upper" in ops.CATALOG:
+                Tt.run(["trtri_upper"], seed + 8, 3 if tier == "quick" else 12, 260, tri_big=(n0, n0 + 200, 1.0))
+        # the automatic table parameter of the M4RI elimination is lowered when 0.75 * 2^k * ncols exceeds L3/2: matrices
+        # wide enough for that rule to fire in this configuration (k from min(nrows, ncols), so wide AND not too flat)
+        l3 = int(v["l3"])
+        if l3 <= 1 << 20:
+            import gen
+            ge = gen.G(seed + 9)
+            aimed = []
+            for nr, kk in ((70, 5), (140, 6), (520, 7)):      # m4ri_opt_k(min(nrows, ncols)) = kk
+                nc = max(nr + 5, min(4000, int(l3 / 2 / 0.75 / (1 << kk)) + ge.rng.choice([5, 70, 200])))
+                if nr * nc > 1200000:
+                    continue
+                rows, kind = (gen.rank_profile_rows2(ge, nr, nc) if ge.rng.random() < 0.5 else ge.rows(nr, nc, "dense"))
+                full = ge.rng.getrandbits(1)
+                aimed.append(ge.case("echelonize_m4ri", [ge.mat_line("A", nr, nc, rows), "call echelonize_m4ri A %d 0" % full, "dump A"],
+                                     op="echelonize_m4ri", shape=(nr, nc), kinds=(kind, "k-lowered"), full=full, k=0))
+            if aimed:
+                co, mo = runner.run(aimed)
+                for c in aimed:
+                    res.count(("k-lowered", c.meta["shape"], v["name"]))
+                engine.handle_mismatches(res, "C12", corr.compare(aimed, co, mo), runner, tag="/klow/cfg=" + v["name"])
         # the cache-derived PLE cut-off of this configuration: inputs just large enough to enter the block recursion
         # (Schur complement, L compression) with rank-deficient column halves - ordinary sizes on a small-cache machine;
         # two-tier comparison of tools/ops.py (verified checker on the output, exact (A',P,r,Q) at the build's cut-off)
